@@ -204,7 +204,7 @@ func runC04(c *Ctx) {
 
 	// ---- R4
 	nGo := 0
-	funcInstrs(a.SetDispatch, func(in ssa.Instruction) {
+	funcInstrs(c.fanOut().Fn, func(in ssa.Instruction) {
 		g, ok := in.(*ssa.Go)
 		if !ok {
 			return
@@ -297,7 +297,72 @@ func (c *Ctx) allOriginsLocalAlloc(v ssa.Value, fn *ssa.Function) bool {
 }
 
 // snapshotSource finds the call whose result hSet.dispatch ranges over.
+// fanOutT describes where the per-handler goroutines are started: in the set's
+// dispatch function itself, or in the one unexported helper it hands the
+// snapshot to (called from nowhere else, never used as a value).
+type fanOutT struct {
+	Fn     *ssa.Function // the function with the loop and the go statement
+	Snap   *ssa.Call     // the call that builds the snapshot (in the dispatch function)
+	Ranged ssa.Value     // what Fn ranges over: Snap itself, or Fn's parameter that receives it
+}
+
+func (c *Ctx) fanOut() fanOutT {
+	d := c.A.SetDispatch
+	hasGo := false
+	funcInstrs(d, func(in ssa.Instruction) {
+		if _, ok := in.(*ssa.Go); ok {
+			hasGo = true
+		}
+	})
+	if !hasGo {
+		for _, cs := range CallSites(d) {
+			call, ok := cs.(*ssa.Call)
+			if !ok || call.Call.IsInvoke() {
+				continue
+			}
+			h := call.Call.StaticCallee()
+			if h == nil || !c.InModuleFn(h) || h.Package() != c.Client || (h.Object() != nil && h.Object().Exported()) || addrTaken(h) || len(c.staticCallers(h)) != 1 {
+				continue
+			}
+			for i, arg := range call.Call.Args {
+				sc, isC := arg.(*ssa.Call)
+				if !isC || sc.Call.IsInvoke() || sc.Call.StaticCallee() == nil || i >= len(h.Params) {
+					continue
+				}
+				if _, isSlice := sc.Type().Underlying().(*types.Slice); !isSlice {
+					continue
+				}
+				ranges, spawns := false, false
+				funcInstrs(h, func(in ssa.Instruction) {
+					if ia, okI := in.(*ssa.IndexAddr); okI && ia.X == ssa.Value(h.Params[i]) {
+						ranges = true
+					}
+					if _, okG := in.(*ssa.Go); okG {
+						spawns = true
+					}
+				})
+				if ranges && spawns {
+					return fanOutT{Fn: h, Snap: sc, Ranged: h.Params[i]}
+				}
+			}
+		}
+	}
+	snap := c.snapshotSourceIn(d)
+	var ranged ssa.Value
+	if snap != nil {
+		ranged = snap
+	}
+	return fanOutT{Fn: d, Snap: snap, Ranged: ranged}
+}
+
 func (c *Ctx) snapshotSource(fn *ssa.Function) *ssa.Call {
+	if fn == c.A.SetDispatch {
+		return c.fanOut().Snap
+	}
+	return c.snapshotSourceIn(fn)
+}
+
+func (c *Ctx) snapshotSourceIn(fn *ssa.Function) *ssa.Call {
 	var out *ssa.Call
 	funcInstrs(fn, func(in ssa.Instruction) {
 		ia, ok := in.(*ssa.IndexAddr)
@@ -315,7 +380,11 @@ func (c *Ctx) snapshotSource(fn *ssa.Function) *ssa.Call {
 
 // goPerElement: g is in the loop ranging over snap, executes once per element
 // load, and passes the element.
-func (c *Ctx) goPerElement(g *ssa.Go, snap *ssa.Call) (bool, string) {
+func (c *Ctx) goPerElement(g *ssa.Go, snapCall *ssa.Call) (bool, string) {
+	if snapCall == nil {
+		return false, "no snapshot"
+	}
+	snap := c.fanOut().Ranged
 	if snap == nil {
 		return false, "no snapshot"
 	}
